@@ -7,6 +7,10 @@ HOOK_COMMITS = ["2f8d038"]
 
 # property -> (technique, level text, level note, design_ref)
 CLAIMED = {
+ "C07": ("Coq theorems over a byte-level model of the framing (round trip, allocation bound, no fabrication, truncation for every offset) with the size guards regenerated from io.go/client.go + replayed bodies against the real client and server",
+         "Machine-checked proof (Coq 8.16): for EVERY byte string and either body ending, the modelled client loop (doHttpCall) and server RecvMsg request at most max_size bytes and never a negative size, deliver only messages that literally follow their own length prefix in the input, and round-trip every encodable stream; a reply cut at ANY offset before the end of the trailer frame yields an error and an intact prefix. The two size guards and the limit are regenerated from the source on every run (removing a guard breaks a named theorem). The model is tied to the code by feeding hostile prefixes, every truncation offset of generated streams, prefix mutations and random bytes to the real httpgrpc client (replaying RoundTripper) and server (crafted request bodies), comparing delivered frames and the final error class, with TotalAlloc observed.",
+         "Trusted: Coq kernel; go2coq translation of the guards; models of binary.Read/io.ReadAtLeast EOF classification (validated by the runs); protobuf decoding of the trailer is an oracle input (real codec); actual resident memory is only observed (TotalAlloc).",
+         "7/C07"),
  "C14": ("Coq theorems over tables regenerated from codes.go by a Go-AST translator + exhaustive differential/correspondence run",
          "Machine-checked proof (Coq 8.16): the code->HTTP and HTTP->code tables and the renderer guard are regenerated from /repo's source on every run and the theorems (documented table, error status for every non-OK code over all of Z, the 499 rule, recovery of every uint32 code through the %d/ParseInt/int32 round trip, OK iff 2xx for every integer status) are re-proved against them; the hand-written glue (header precedence) is tied to the code by running real server, real client and loopback end-to-end calls on all codes 0..40, boundary and random uint32 codes, and all HTTP statuses 100..599.",
          "Trusted: Coq kernel; the go2coq translator (differentially tested on every run against the real functions); the model of fmt %d / strconv.ParseInt (lib/Dec.v); net/http's handling of the status header on loopback is observed, not proved.",
